@@ -274,7 +274,10 @@ BoolItersB == <<IterV(TNever, ArrV(TNever, <<>>)), IterV(TBool, ArrV(TBool, <<Bo
                 IterV(TBool, ArrV(TBool, <<BoolV(TRUE), BoolV(TRUE), BoolV(TRUE)>>))>>
 FloatItersB == <<IterV(TNever, ArrV(TNever, <<>>)), IterV(TFloat, ArrV(TFloat, <<FloatH(1)>>)),
                  IterV(TFloat, ArrV(TFloat, <<FloatH(3), FloatH(5)>>)), IterV(TFloat, ArrV(TFloat, <<FInf, FNInf>>)),
-                 IterV(TFloat, ArrV(TFloat, <<FNan, FloatH(2)>>)), IterV(TFloat, ArrV(TFloat, <<FInf, FloatH(0)>>))>>
+                 IterV(TFloat, ArrV(TFloat, <<FNan, FloatH(2)>>)), IterV(TFloat, ArrV(TFloat, <<FInf, FloatH(0)>>)),
+                 \* a zero BEFORE a NaN / an infinity / a negative element: zero is not absorbing in IEEE arithmetic
+                 IterV(TFloat, ArrV(TFloat, <<FloatH(0), FNan>>)), IterV(TFloat, ArrV(TFloat, <<FloatH(0), FInf>>)),
+                 IterV(TFloat, ArrV(TFloat, <<FloatH(0), FloatH(-6)>>)), IterV(TFloat, ArrV(TFloat, <<FloatH(4), FloatH(0), FloatH(-2), FloatH(3)>>))>>
 StrItersB == <<IterV(TNever, ArrV(TNever, <<>>)), IterV(TString, ArrV(TString, <<S(<<97>>)>>)),
                IterV(TString, ArrV(TString, <<S(<<97>>), S(<<233, 128512>>), S(<<>>)>>))>>
 \* fs / io arguments of the table suite: relative to the scratch directory the harness works in;
